@@ -117,6 +117,16 @@ def _generate_model_code(
             raise ValueError(msg)
         source.append(assignment_template.format(k=name, v=sympy_inline_fn(expr)))
 
+    # Names of the derivatives: d<variable>dt, unless the model uses that name itself
+    taken = set(model.ids) | {"time", "variables"}
+    diff_names: dict[str, str] = {}
+    for variable in variables:
+        diff_name = f"d{variable}dt"
+        while diff_name in taken:
+            diff_name += "_"
+        taken.add(diff_name)
+        diff_names[variable] = diff_name
+
     # Diff eqs
     diff_eqs = {}
     for rxn_name, rxn in model.get_raw_reactions().items():
@@ -126,12 +136,14 @@ def _generate_model_code(
     for variable, stoich in diff_eqs.items():
         expr = stoichiometries_to_sympy(origin=variable, stoichs=stoich)
         source.append(
-            assignment_template.format(k=f"d{variable}dt", v=sympy_inline_fn(expr))
+            assignment_template.format(
+                k=diff_names[variable], v=sympy_inline_fn(expr)
+            )
         )
     if len(diff_eqs) > 0:
         # Variables no reaction touches still need a derivative
         source.extend(
-            assignment_template.format(k=f"d{variable}dt", v="0.0")
+            assignment_template.format(k=diff_names[variable], v="0.0")
             for variable in variables
             if variable not in diff_eqs
         )
@@ -143,7 +155,9 @@ def _generate_model_code(
 
     # Return
     ret = (
-        ", ".join(f"d{i}dt" for i in variables) if len(diff_eqs) > 0 else empty_return
+        ", ".join(diff_names[i] for i in variables)
+        if len(diff_eqs) > 0
+        else empty_return
     )
     source.append(return_template.format(ret))
 
